@@ -632,3 +632,34 @@ PROPS["C07"] = dict(
                  "read-only inputs and disjoint output windows, so TSan + the write counters are the deciding monitors",
                  SAN_ASSUME],
 )
+
+# ----------------------------------------------------------------------------- C06
+PROPS["C06"] = dict(
+    units={"pms": dict(src=["harness/C06_parallel_mergesort.cpp"], tlx=["tlx/algorithm/parallel_multiway_merge.cpp"])},
+    quick=[
+        R("pms", "asan", 6, 25),
+        R("pms", "plain", 4, 60),
+        R("pms", "tsan", 4, 10, ["tracked_every=8"], timeout=600),
+        R("pms", "plain", 2, 2, ["big=1"]),
+    ],
+    thorough=[
+        R("pms", "asan", 16, 1500, timeout=7200),
+        R("pms", "plain", 8, 4000, timeout=7200),
+        R("pms", "tsan", 8, 500, ["tracked_every=8"], timeout=7200),
+        R("pms", "plain", 8, 40, ["big=1"], timeout=7200),
+        R("pms", "tsan", 4, 6, ["big=1"], timeout=7200),
+    ],
+    rule="a case = 40 sorts (big=1: 3 sorts of 20000..300000 elements). A sort = n in 0..300 (dense, so n < threads and n "
+         "not divisible by threads occur constantly) or 1000..5000, key multiset {all equal, 2-4 distinct keys, sorted, "
+         "reversed, sawtooth, random, one heavy key}, threads in {1..8,11,16,17,32}, exact or sampling splitting, "
+         "oversampling 1/2/10, ascending or descending comparator, stable or unstable entry point, trivial (key,index) "
+         "records or heap-owning ledger-registered Tracked elements in an array of exactly n elements. Stable: exact "
+         "equality with std::stable_sort; unstable: sorted and the (key,index) multiset unchanged; Tracked: ledger.live "
+         "unchanged by the call, no copy from / assignment to dead storage, nothing alive after the array is gone, LSan "
+         "at exit; TSan for races (mostly trivial elements there: the ledger's own lock would hide races). Classes: "
+         "(stable, element type, splitting, thread class, size class, key shape).",
+    require=dict(any=["sorts", "sorts_with_n_below_threads", "sorts_with_n_not_divisible", "sorts_with_heap_owning_elements"]),
+    assumptions=["std::stable_sort is the reference arrangement", "real OS scheduling only: the threads synchronise through the "
+                 "mutex barrier alone (its interleavings are explored under C11), so TSan on real executions is the race "
+                 "monitor; a wall-clock watchdog is inconclusive", SAN_ASSUME],
+)
